@@ -283,12 +283,17 @@ func (c *Ctx) checkReadySignals() {
 	}
 	chanKinds := func(v ssa.Value) (kinds []string, phi *ssa.Phi) {
 		if p, ok := v.(*ssa.Phi); ok {
+			nNil := 0
 			for _, e := range p.Edges {
+				if isNilConst(e) {
+					nNil++ // "no signal" alternative: var ch chan bool; … if ch != nil { select { case ch <- true: … } }
+					continue
+				}
 				if s := suffixOf(e); s != "" {
 					kinds = append(kinds, s)
 				}
 			}
-			if len(kinds) == len(p.Edges) {
+			if len(kinds) > 0 && len(kinds)+nNil == len(p.Edges) {
 				return kinds, p
 			}
 			return nil, nil
@@ -325,15 +330,7 @@ func (c *Ctx) checkReadySignals() {
 	for u, ss := range units {
 		fk := ssaFuncKey(u)
 		// atoms in the unit's vocabulary
-		var agencyAtom, roleAtom string
-		for _, ef := range edgeFacts(u) {
-			if i := strings.Index(ef.Fact, ".Agency == "); i > 0 {
-				agencyAtom = ef.Fact[:i+len(".Agency")]
-			}
-			if i := strings.Index(ef.Fact, ".config.Role == "); i > 0 {
-				roleAtom = ef.Fact[:i+len(".config.Role")]
-			}
-		}
+		agencyAtom, roleAtom := atomComparedWithConst(u, ".Agency"), atomComparedWithConst(u, ".config.Role")
 		agencySrc := agencyAtom
 		// entry := StateMap[s] kept in a local: the atom names the local, its single store names the lookup
 		for _, in := range fnInstrs(u) {
@@ -378,7 +375,11 @@ func (c *Ctx) checkReadySignals() {
 						kinds, phi := chanKinds(st.ch)
 						if phi != nil && psChanChoice != nil {
 							if v, ok := psChanChoice(phi); ok {
-								kinds = []string{suffixOf(v)}
+								if isNilConst(v) {
+									kinds = nil // a send on a nil channel in a select with default never happens
+								} else {
+									kinds = []string{suffixOf(v)}
+								}
 							}
 						}
 						for _, k := range kinds {
